@@ -39,6 +39,16 @@ type canonCtx struct {
 	deps  map[ssa.Value]bool
 	reads []memRead
 	depth int
+	// single: resolve any index into a local array of length 1 to element 0
+	// (only for dedicated queries: rule patterns rely on the symbolic index)
+	single bool
+}
+
+// CanonSingleton is Canon with indices into length-1 local arrays resolved.
+func (ex *Explorer) CanonSingleton(st *State, v ssa.Value) *CE {
+	c := &canonCtx{ex: ex, st: st, deps: map[ssa.Value]bool{}, single: true}
+	s := c.val(v)
+	return &CE{S: s, Deps: c.deps, Reads: c.reads, V: ex.Resolve(st, v), V0: v}
 }
 
 func (ex *Explorer) Canon(st *State, v ssa.Value) *CE {
@@ -133,6 +143,11 @@ func (c *canonCtx) loc(v ssa.Value) string {
 		}
 		return c.base(x.X) + "." + name
 	case *ssa.IndexAddr:
+		if al := c.singletonArray(x.X); al != nil && c.single {
+			// any in-bounds index into an array of length 1 designates element 0
+			c.deps[al] = true
+			return "new@" + c.nm(al) + "[0]"
+		}
 		return c.base(x.X) + "[" + c.val(x.Index) + "]"
 	case *ssa.Global:
 		return x.String()
@@ -155,6 +170,37 @@ func (c *canonCtx) loc(v ssa.Value) string {
 func (c *canonCtx) base(v ssa.Value) string {
 	s := c.val(v)
 	return strings.TrimPrefix(s, "&")
+}
+
+// singletonArray: v is (a whole-array slice of) a local array of length 1.
+func (c *canonCtx) singletonArray(v ssa.Value) *ssa.Alloc {
+	for i := 0; i < 8; i++ {
+		switch x := v.(type) {
+		case *ssa.Phi:
+			r, ok := c.resolvePhi(x)
+			if !ok {
+				return nil
+			}
+			v = r
+		case *ssa.ChangeType:
+			v = x.X
+		case *ssa.Slice:
+			if x.Low != nil || x.High != nil || x.Max != nil {
+				return nil
+			}
+			v = x.X
+		case *ssa.Alloc:
+			if pt, ok := x.Type().Underlying().(*types.Pointer); ok {
+				if at, ok := pt.Elem().Underlying().(*types.Array); ok && at.Len() == 1 {
+					return x
+				}
+			}
+			return nil
+		default:
+			return nil
+		}
+	}
+	return nil
 }
 
 func (c *canonCtx) resolvePhi(x *ssa.Phi) (ssa.Value, bool) {
